@@ -66,7 +66,11 @@ func (w *World) timedDecide(p *kernel.Parked) (kernel.Decision, time.Duration) {
 		return d, lat
 	}
 	w.arrival(p)
-	if n < 3 && !inc.NoFaults {
+	limit := 3
+	if c, ok := p.Info.(*srcCall); ok && w.mode.Ctl && c.Endpoint == "get-sth" {
+		limit = 8 // C16ctl: lagging front ends keep turning up while the run carries on
+	}
+	if n < limit && !inc.NoFaults {
 		h, at := hc("dec", 100), 0
 		for _, k := range timedKinds(p) {
 			wt := w.prof.Fault[k]
@@ -78,17 +82,8 @@ func (w *World) timedDecide(p *kernel.Parked) (kernel.Decision, time.Duration) {
 				continue
 			}
 			d.Kind = k
-			switch k {
-			case "http.status":
-				d.N = int64(httpFaultCodes[hc("code", len(httpFaultCodes))])
-			case "rpc.status":
-				d.N = int64(fatalCodes[hc("code", len(fatalCodes))])
-			case "net.cut", "proof.bad":
-				d.N = int64(hc("n", 64))
-			case "rpc.short":
-				c := p.Info.(*srcCall)
-				d.N = int64(1 + hc("n", int(c.B-c.A)))
-			}
+			draws := 0
+			d.N = w.faultParam(k, p, func(m int) int { draws++; return hc(fmt.Sprintf("n%d", draws), m) })
 			s.Fault(k)
 			break
 		}
@@ -146,7 +141,11 @@ func (w *World) TimedRun(s *kernel.Sim) {
 			if left == 0 {
 				return
 			}
-			if !sleep(time.Duration(20+hc(fmt.Sprintf("grow-at|%d", i), 3000)) * time.Millisecond) {
+			span := 3000
+			if w.mode.Ctl {
+				span = 45000 // growth between the controller's 30 s polls, not only before the second one
+			}
+			if !sleep(time.Duration(20+hc(fmt.Sprintf("grow-at|%d", i), span)) * time.Millisecond) {
 				return
 			}
 			w.mu.Lock()
@@ -160,6 +159,9 @@ func (w *World) TimedRun(s *kernel.Sim) {
 	wg.Add(1)
 	go func() {
 		defer wg.Done()
+		if p.SeqOff {
+			return
+		}
 		for i := 0; ; i++ {
 			if !sleep(time.Duration(10+hc(fmt.Sprintf("seq-at|%d", i), 1500)) * time.Millisecond) {
 				return
@@ -272,6 +274,7 @@ func (w *World) TimedRun(s *kernel.Sim) {
 			}
 			w.settleRestarts++
 			s.Probe("restart.settle")
+			w.timedSettle = true
 			w.startIncarnation("timed restart")
 			w.cur.NoFaults = true
 			second := w.cur
